@@ -7,7 +7,7 @@ RULE = (
     "case = (scenario in {stage+transfer into a local store with state, index save of nested directories (every directory with an entry, or only the top-level ones), store-to-store "
     "transfer, upload staging, plain add of hashed files}, generated nested tree with duplicates and empty files, kill point n, "
     "plain or partial); the child process os._exit()s before the n-th filesystem-mutating audit event it issues under the "
-    "scenario root (quick: every 3rd event plus every event that touches a final object name or is a chmod/rename/copyfile; "
+    "scenario root (quick: two trees per scenario, every 10th event plus every event that touches a final object name (and the one after it); "
     "thorough: every event), optionally after writing half of a copy or creating the file being opened; the parent audits the "
     "store, the state DB and closure, re-runs the operation in a fresh process and compares with an uninterrupted golden run.  "
     "non-trivial = the child really died at the kill point; distinct = (scenario, tree, n, variant)"
@@ -22,12 +22,12 @@ MONITORS = "post-mortem audit (independent re-hash, mode bits, State.get vouchin
 REQUIRED_COUNTERS = ["crash_children", "reruns", "killed_at/rename", "killed_at/chmod", "killed_at/copyfile/partial", "killed_at/open-w/partial"]
 EXHAUSTIVE = {"quick": False, "thorough": True}
 
-SCENARIOS = ["stage-transfer", "index-save", "store-to-store", "upload-staging", "add-files", "index-save-sparse"]
+SCENARIOS = ["stage-transfer", "index-save", "store-to-store", "upload-staging", "add-files", "index-save-sparse", "store-to-store-expanded"]
 
 
 def run_shard(ctx):
-    per = 1 if ctx.tier == "quick" else 8
-    every = 3 if ctx.tier == "quick" else 1
+    per = 2 if ctx.tier == "quick" else 8
+    every = 10 if ctx.tier == "quick" else 1
     k = 0
     for t in range(per):
         for sc in SCENARIOS:
